@@ -111,9 +111,13 @@ def delegate_checks(ctx):
     # AutoETS(auto=True): the reported model is the candidate with the least information criterion among the
     # documented candidate set (non-seasonal: error x trend x damped), each fitted by statsmodels with its own options
     lvl = 100 - 60 * 0.75 ** t          # a trend that levels off: damped candidates matter
-    auto_series = [lvl + rng.rand(n) * 0.5, series[0]]
+    # (short series: the criteria penalise parameters differently and may prefer different candidates)
+    auto_series = [lvl + rng.rand(n) * 0.5, series[0], series[0][:9], 20 + 0.4 * t[:8] + rng.rand(8) * 2, lvl[:10] + rng.rand(10)]
     for si, yv in enumerate(auto_series):
-        for ic in (("aic",) if ctx.quick else ("aic", "bic", "aicc")):
+        n = len(yv)
+        for ic in ("aic", "bic", "aicc"):
+            if ctx.quick and (si, ic) not in ((0, "aic"), (2, "bic"), (3, "bic"), (3, "aicc"), (4, "aicc")):
+                continue
             ctx.evaluations += 1
             sc = {"delegate": "AutoETS(auto=True)", "ic": ic, "series": si}
             try:
